@@ -82,8 +82,10 @@ inductive Field where
   | objectInl (name : Str) (props : List Property) (flatten : Bool) (rules : Rules)
   | oneofRef (pkg schema : Str) (rules : Rules) (listRules : Bool)
   | oneofInl (name : Str) (props : List Property) (rules : Rules) (listRules : Bool)
-  | enumRef (pkg schema : Str) (rules : Rules) (listRules : Bool)
-  | enumInl (e : EnumDecl) (rules : Rules) (listRules : Bool)
+  /-- `listRules`: `none` = no `EnumRules` list constraint; `some fs` = present, with
+  `filtering.default_filters = fs` (`[]` when there is no `filtering` or no default) -/
+  | enumRef (pkg schema : Str) (rules : Rules) (listRules : Option (List Str))
+  | enumInl (e : EnumDecl) (rules : Rules) (listRules : Option (List Str))
   | array (items : Field) (rules : Rules)
   | map (items : Field) (rules : Rules)
 /-- `schema_j5pb.ObjectProperty` -/
@@ -217,14 +219,15 @@ structure Import where
 
 /-- a source file of a local package -/
 inductive SrcFile where
-  /-- `.j5s` source: `path` e.g. `foo/v1/a.j5s` -/
-  | j5s (path : Str) (imports : List Import) (elems : List Elem)
+  /-- `.j5s` source: `path` e.g. `foo/v1/a.j5s`; `decl` is the name in the file's `package`
+  declaration (`SourceFile.Package.Name`), which `parseJ5s` compares with the path -/
+  | j5s (path : Str) (imports : List Import) (elems : List Elem) (decl : Str)
   /-- hand-written `.proto` of the package: only its top-level exports matter.
       `enums`: name and value names (first has number 0). -/
   | proto (path : Str) (msgs : List Str) (enums : List (Str × List Str))
 
 def SrcFile.path : SrcFile → Str
-  | .j5s p _ _ => p
+  | .j5s p _ _ _ => p
   | .proto p _ _ => p
 
 structure Pkg where
